@@ -67,6 +67,20 @@ func (g *gates) at(c int, point string, _ []any) {
 	g.mu.Unlock()
 }
 
+// waitSeen blocks until (c, point) has been observed (or the timeout passes)
+func (g *gates) waitSeen(c int, point string, d time.Duration) bool {
+	key := fmt.Sprintf("%d/%s", c, point)
+	deadline := time.Now().Add(d)
+	timer := time.AfterFunc(d, func() { g.mu.Lock(); g.cond.Broadcast(); g.mu.Unlock() })
+	defer timer.Stop()
+	g.mu.Lock()
+	defer g.mu.Unlock()
+	for !g.seen[key] && time.Now().Before(deadline) {
+		g.cond.Wait()
+	}
+	return g.seen[key]
+}
+
 // ---------------------------------------------------------------- scripted terminal
 
 type termScript struct {
@@ -259,6 +273,8 @@ func init() {
 			{"timer-between-check-and-send-at-teardown", []gateRule{{"T.checked", "S.chansClosed"}}},
 			{"command-routed-just-before-leave", []gateRule{{"W.top", "S.stopClosed"}}},
 			{"response-matched-while-reader-tears-down", []gateRule{{"W.resp.match", "S.chansClosed"}}},
+			{"command-sent-after-the-writer-exited-while-the-reader-is-still-in-stop", []gateRule{{"S.connClosed", "M.route.after"}}},
+			{"timeouts-expire-while-the-writer-is-held-in-a-callback", nil},
 			{"close-before-join", nil},
 			{"close-mid-frame", nil},
 			{"random-storm", nil},
@@ -341,6 +357,36 @@ func init() {
 						dv, _ := decodeView(fr)
 						t.send(t.frame(0x0104, respBody(0x0104, dv.Serial, 0x8104)))
 					}
+					t.close(false)
+				case "command-sent-after-the-writer-exited-while-the-reader-is-still-in-stop":
+					// the reader is parked inside stop() after it closed the socket; once the writer has exited a
+					// command is sent: it must be answered (not-exist, or failed by the teardown), never queued on a dead connection
+					join()
+					t.close(false)
+					if g.waitSeen(t.idx, "W.exit", 1200*time.Millisecond) {
+						call(t, key, 200*time.Millisecond, &wg)
+					}
+				case "timeouts-expire-while-the-writer-is-held-in-a-callback":
+					join()
+					for i := 0; i < 5; i++ { // five outstanding commands, 250 ms each, never answered
+						call(t, key, 250*time.Millisecond, &wg)
+						time.Sleep(3 * time.Millisecond)
+					}
+					held := make(chan struct{})
+					var once atomic.Bool
+					hold := func(c int) {
+						if c == t.idx && !once.Swap(true) { // only the first write callback parks the writer
+							select {
+							case <-held:
+							case <-time.After(700 * time.Millisecond):
+							}
+						}
+					}
+					l.writeHold.Store(&hold)
+					t.send(t.frame(0x0002, nil)) // its write callback parks the writer while all five time-outs expire
+					wg.Wait()
+					close(held)
+					l.writeHold.Store(nil)
 					t.close(false)
 				case "close-before-join":
 					call(t, key, 100*time.Millisecond, &wg)
